@@ -42,6 +42,9 @@ THEOREMS = [
     # follow-up to ae278e0 (value check of ValidatorParser) and 67194dc (TOML boolean text)
     "Config.bad_value_refused", "Config.mergeFile_no_traceback", "Config.not_bad_of_convert_ok", "Config.mergeFile_ok",
     "Config.bad_count_old_counterexample", "Config.toml_bool_text_old_counterexample",
+    # hunter round: kernel-checked witnesses of open findings (what the code does today)
+    "Config.unknown_key_bad_value_counterexample", "Config.ini_multiline_quoted_items_counterexample",
+    "Config.toml_file_falls_back_to_ini", "Config.config_key_counterexample", "Config.positional_equal_to_option_string_counterexample",
 ]
 PARTIAL: dict = {}     # every property statement is at full strength for the code at /repo HEAD; `…_old_…` are about earlier code
 RULE = ("(a) exhaustive: every string of length <=3 (quick) / <=4 (thorough) over {a, space, \", ', \\, #, ;, =, %, [, ], newline, "
@@ -75,7 +78,11 @@ RULE = ("(a) exhaustive: every string of length <=3 (quick) / <=4 (thorough) ove
         "depths, sourcepath order); multi-file merges now include an explicit --config file. (f) first on every run and independent "
         "of the model's option table: every config key the real parser accepts (each long option string of each action, with and "
         "without --, generated negative spellings included) x true/false/count/valid value x the three files against the command "
-        "line that spells the same option string. The corpus also holds: one-item-per-line "
+        "line that spells the same option string. (g) hunter shapes, deterministic, first on every run: the config-file option's own "
+        "key in a file (existing and missing target, 3 formats), unknown INI keys with bracketed/quoted values that do not evaluate, "
+        "pyproject.toml files the toml package refuses (a TOML 1.0 mixed array in another table) x strings x basic/literal x "
+        "trailing comment, one-item-per-line lists with every line quoted, commas in TOML array strings, a source path equal to an "
+        "option string. The corpus also holds: one-item-per-line "
         "lists for the five repeatable options with each of VT FF FS GS RS NEL U+2028 U+2029 in the middle of an item in setup.cfg "
         "and pydoctor.ini (80 files; CR and the same characters are in the value-level INI stream), the reviewed edge cases as open "
         "findings (clustered -vv/-vq, the value `--`, bad count/flag values, key case, TOML boolean on a string option) and as "
